@@ -85,6 +85,8 @@ def ops_for(kind):
         ops += [('q', 'xx', 0), ('q', 'xz', 0), ('q', 'xc', 0), ('qc',)]
     # q2 / q2d: several events in one queue() call (q2d: with decreasing delays)
     ops += [('q', 'x', '0!'), ('qi', 'ix', '0!'), ('q2', 'x', 'y'), ('q2d', 'x', 2, 'y', 1, 'x', 0)]
+    # execute(): "repeatedly calls execute_once" - all steps, or at most two
+    ops += [('exec', -1), ('exec', 2)]
     return ops
 
 
@@ -207,6 +209,35 @@ def apply_op(it, ref, op, listener_log):
             return ['execute_once raised %s: %s' % (type(e).__name__, str(e)[:80])]
         probes.VAL.clear()
         errs += compare_step(exp, st, ref, listener_log)
+    elif k == 'exec':
+        probes.VAL.clear()
+        probes.reset()
+        del listener_log[:]
+        exps = []
+        while op[1] < 0 or len(exps) < op[1]:
+            e = ref.step(False)
+            if e[0] == 'none':
+                break
+            exps.append((e, ref.last_internal))
+        try:
+            steps = it.execute(max_steps=op[1])
+        except Exception as e:
+            return ['execute(max_steps=%d) raised %s: %s' % (op[1], type(e).__name__, str(e)[:80])]
+        if len(steps) != len(exps):
+            return ['execute(max_steps=%d) returned %d steps %s, expected %d: %s'
+                    % (op[1], len(steps), [st.event for st in steps], len(exps), [e for e, _ in exps])]
+        # the listener's log, cut at each 'step started'
+        logs = []
+        for m in listener_log:
+            if m.name == 'step started':
+                logs.append([])
+            if logs:
+                logs[-1].append(m)
+        final = ref.last_internal
+        for (e, li), st, lg in zip(exps, steps, logs):
+            ref.last_internal = li
+            errs += compare_step(e, st, ref, lg)
+        ref.last_internal = final
     return errs
 
 
